@@ -66,6 +66,10 @@ type Net struct {
 	seq      uint64
 	nextPort int
 
+	// DualStack lets a socket bound to [::] receive datagrams addressed to the host's IPv4
+	// addresses; their source is then reported in IPv4-mapped form, as the kernel does.
+	DualStack bool
+
 	// Plan, when set, decides the fate of each datagram. Called with n.mu NOT held.
 	Plan func(d *Dgram) Fate
 
@@ -204,6 +208,12 @@ func (n *Net) lookupUDP(dst *net.UDPAddr) *UDPConn {
 	if c, ok := n.udp[wildcardKey(dst.IP, dst.Port)]; ok {
 		return c
 	}
+	// a dual-stack [::] socket also receives IPv4 traffic (Linux default, bindv6only=0)
+	if n.DualStack && dst.IP.To4() != nil {
+		if c, ok := n.udp[fmt.Sprintf("[::]:%d", dst.Port)]; ok {
+			return c
+		}
+	}
 
 	return nil
 }
@@ -331,6 +341,9 @@ func (n *Net) route(sock *UDPConn, src, dst *net.UDPAddr, b []byte) {
 	}
 	if fate.Drop || target == nil {
 		return
+	}
+	if target.local.IP.To4() == nil && target.local.IP.IsUnspecified() && len(d.Src.IP) == net.IPv4len {
+		d.Src.IP = d.Src.IP.To16() // an AF_INET6 socket reports IPv4 senders as ::ffff:a.b.c.d
 	}
 	deliver := func() {
 		for i := 0; i <= fate.Dup; i++ {
